@@ -67,6 +67,16 @@ def translate(repo, outdir):
         fail('resolve_names.py', gb, 'signature of get_binding')
     clauses = []
     body = nodoc(gb.body)
+    TAINT_FIRST = 'isinstance(namespace, ast.Module) and name in '
+    taint_first = None
+    if body and isinstance(body[0], ast.If) and ast.unparse(body[0].test).startswith(TAINT_FIRST) and not body[0].orelse \
+            and [ast.unparse(x) for x in body[0].body] == ['namespace.tainted = True']:
+        # a reference that reaches the module with the name of a dynamic-name builtin taints the module, whatever it resolves to
+        lst = body[0].test.values[1].comparators[0]
+        if not (isinstance(lst, (ast.List, ast.Tuple, ast.Set)) and all(isinstance(e, ast.Constant) and isinstance(e.value, str) for e in lst.elts)):
+            fail('resolve_names.py', body[0], 'list of tainting builtins not recognised')
+        taint_first = [e.value for e in lst.elts]
+        body = body[1:]
     for i, st in enumerate(body):
         if isinstance(st, ast.For):
             if ast.unparse(st) != OWN:
@@ -136,6 +146,57 @@ def translate(repo, outdir):
     if ast.unparse(bb[-1]) != 'return binding':
         fail('bind_names.py', bg[0], 'NameBinder.get_binding does not return the binding')
 
+    # ---- where module.tainted is written (C09): the builtins whose use taints, the imports that taint, and every assignment to `.tainted`
+    taint_builtins = None
+    for n in ast.walk(gb):
+        if isinstance(n, ast.If) and isinstance(n.test, ast.Compare) and ast.unparse(n.test.left) == 'name' and isinstance(n.test.ops[0], ast.In) \
+                and isinstance(n.test.comparators[0], (ast.List, ast.Tuple, ast.Set)) and [ast.unparse(x) for x in n.body] == ['namespace.tainted = True']:
+            elts = n.test.comparators[0].elts
+            if not all(isinstance(e, ast.Constant) and isinstance(e.value, str) for e in elts) or taint_builtins is not None:
+                fail('resolve_names.py', n, 'list of tainting builtins not recognised')
+            taint_builtins = [e.value for e in elts]
+    if taint_builtins is None:
+        fail('resolve_names.py', gb, 'get_binding no longer taints the module for dynamic-name builtins')
+    if taint_first is not None and sorted(taint_first) != sorted(taint_builtins):
+        fail('resolve_names.py', gb, 'the two lists of tainting builtins in get_binding differ')
+    va = [n for n in nb[0].body if isinstance(n, ast.FunctionDef) and n.name == 'visit_alias']
+    if not va:
+        raise Untranslatable('bind_names.py: NameBinder.visit_alias not found')
+    vb = nodoc(va[0].body)
+    star = any(isinstance(x, ast.If) and ast.unparse(x.test) == "node.name == '*'" and [ast.unparse(y) for y in x.body] == ['get_global_namespace(node).tainted = True'] and not x.orelse for x in vb)
+    mods = []
+    for x in vb:
+        if isinstance(x, ast.If) and [ast.unparse(y) for y in x.body] == ['get_global_namespace(node).tainted = True'] and not x.orelse and ast.unparse(x.test).startswith('root_module == '):
+            c = x.test.comparators[0]
+            if not (isinstance(c, ast.Constant) and isinstance(c.value, str)):
+                fail('bind_names.py', x, 'tainting module test not recognised')
+            mods.append(c.value)
+    if not star or ast.unparse(vb[0]) != "if node.name == '*':\n    get_global_namespace(node).tainted = True" or "root_module = node.name.split('.')[0]" not in [ast.unparse(x) for x in vb]:
+        fail('bind_names.py', va[0], 'visit_alias: star imports no longer taint the module first thing')
+    writes = []
+    for fname, tree in (('rename/bind_names.py', t3), ('rename/resolve_names.py', t1), ('rename/util.py', t2)):
+        for n in ast.walk(tree):
+            if isinstance(n, (ast.Assign, ast.AugAssign, ast.AnnAssign)):
+                tg = n.targets if isinstance(n, ast.Assign) else [n.target]
+                for t_ in tg:
+                    if isinstance(t_, ast.Attribute) and t_.attr == 'tainted':
+                        writes.append((fname, ast.unparse(n.value) if n.value is not None else '?'))
+            if isinstance(n, ast.Call) and ast.unparse(n.func) in ('setattr', 'delattr') and len(n.args) >= 2 and 'tainted' in ast.unparse(n.args[1]):
+                writes.append((fname, 'setattr'))
+    for other in ('rename/mapper.py', 'rename/renamer.py', 'rename/rename_literals.py', 'rename/binding.py', '__init__.py'):
+        try:
+            ot = ast.parse(open(os.path.join(repo, 'src/python_minifier', other)).read())
+        except (OSError, SyntaxError) as e:
+            raise Untranslatable('%s: %s' % (other, e))
+        for n in ast.walk(ot):
+            if isinstance(n, (ast.Assign, ast.AugAssign, ast.AnnAssign)):
+                tg = n.targets if isinstance(n, ast.Assign) else [n.target]
+                for t_ in tg:
+                    if isinstance(t_, ast.Attribute) and t_.attr == 'tainted':
+                        writes.append((other, ast.unparse(n.value) if n.value is not None else '?'))
+
+    def cs(x):
+        return '"' + x.replace('"', '""') + '"'
     o = ['(* GENERATED on every run by /verif/translator/resolve.py from rename/resolve_names.py (get_binding), rename/util.py',
          '   (get_nonlocal_namespace, get_global_namespace) and rename/bind_names.py (NameBinder.get_binding). Do not edit. *)',
          'From PM Require Import Model.Base Model.ScopeBase.',
@@ -144,7 +205,16 @@ def translate(repo, outdir):
          '(* get_nonlocal_namespace passes over every enclosing class namespace *)',
          'Definition nonlocal_namespace_skips_classes : bool := true.',
          '(* NameBinder.get_binding binds a name declared global in the module namespace, otherwise finds or creates it in the namespace given *)',
-         'Definition binder_global_to_module : bool := true.']
+         'Definition binder_global_to_module : bool := true.',
+         'From Coq Require Import String.',
+         '#[local] Open Scope string_scope.',
+         '(* C09: the builtins whose (unshadowed) use sets module.tainted, the imported modules that do, star imports, and EVERY assignment to a `.tainted` attribute in rename/ and __init__.py *)',
+         'Definition taint_builtins : list string := [%s].' % '; '.join(cs(x) for x in taint_builtins),
+         'Definition taint_modules : list string := [%s].' % '; '.join(cs(x) for x in mods),
+         'Definition star_import_taints : bool := %s.' % ('true' if star else 'false'),
+         '(* get_binding taints the module for ANY reference that reaches the module under one of these names, also when the module binds the name itself *)',
+         'Definition taint_regardless_of_module_binding : bool := %s.' % ('true' if taint_first is not None else 'false'),
+         'Definition tainted_writes : list (string * string) := [%s].' % '; '.join('(%s, %s)' % (cs(a), cs(b)) for a, b in sorted(writes))]
     text = '\n'.join(o) + '\n'
     p = os.path.join(outdir, 'ResolveNames.v')
     old = open(p).read() if os.path.exists(p) else None
